@@ -207,6 +207,48 @@ def split_tuple_assignments(src):
     return ast.unparse(tree) + '\n'
 
 
+def join_assignments(src):
+    """Two adjacent `a = x` / `b = y` statements with plain-name targets ->
+    `a, b = x, y` when neither value mentions the other target."""
+    import ast
+    tree = ast.parse(src)
+
+    def simple(st):
+        return isinstance(st, ast.Assign) and len(st.targets) == 1 and \
+            isinstance(st.targets[0], ast.Name) and not isinstance(
+                st.value, (ast.Tuple, ast.Yield, ast.YieldFrom, ast.Await))
+
+    def names(e):
+        return {x.id for x in ast.walk(e) if isinstance(x, ast.Name)}
+
+    for node in ast.walk(tree):
+        for fld in ('body', 'orelse', 'finalbody'):
+            stmts = getattr(node, fld, None)
+            if not (isinstance(stmts, list) and stmts and isinstance(
+                    stmts[0], ast.stmt)):
+                continue
+            out, i = [], 0
+            while i < len(stmts):
+                a = stmts[i]
+                b = stmts[i + 1] if i + 1 < len(stmts) else None
+                if simple(a) and b is not None and simple(b) and \
+                        a.targets[0].id != b.targets[0].id and \
+                        a.targets[0].id not in names(b.value) and \
+                        b.targets[0].id not in names(a.value) and \
+                        not isinstance(node, (ast.ClassDef, ast.Module)):
+                    out.append(ast.copy_location(ast.Assign(
+                        targets=[ast.Tuple(elts=[a.targets[0], b.targets[0]],
+                                           ctx=ast.Store())],
+                        value=ast.Tuple(elts=[a.value, b.value],
+                                        ctx=ast.Load())), a))
+                    i += 2
+                else:
+                    out.append(a)
+                    i += 1
+            setattr(node, fld, out)
+    return ast.unparse(ast.fix_missing_locations(tree)) + '\n'
+
+
 def comprehensions_to_loops(src):
     """`name = [e for x in it if c]` (statement level, one generator) ->
     `name = []` + an explicit loop that appends."""
@@ -218,24 +260,29 @@ def comprehensions_to_loops(src):
             v = n.value
             if len(n.targets) == 1 and isinstance(
                     n.targets[0], ast.Name) and isinstance(
-                    v, ast.ListComp) and len(v.generators) == 1 and not \
-                    v.generators[0].is_async:
+                    v, (ast.ListComp, ast.SetComp)) and len(
+                    v.generators) == 1 and not v.generators[0].is_async:
                 name = n.targets[0].id
                 g = v.generators[0]
                 used = {x.id for x in ast.walk(v) if isinstance(x, ast.Name)}
                 if name in used:
                     return n
+                is_set = isinstance(v, ast.SetComp)
                 app = ast.Expr(ast.Call(
                     func=ast.Attribute(value=ast.Name(id=name, ctx=ast.Load()),
-                                       attr='append', ctx=ast.Load()),
+                                       attr='add' if is_set else 'append',
+                                       ctx=ast.Load()),
                     args=[v.elt], keywords=[]))
                 body = [app]
                 for c in reversed(g.ifs):
                     body = [ast.If(test=c, body=body, orelse=[])]
                 loop = ast.For(target=g.target, iter=g.iter, body=body,
                                orelse=[])
-                init = ast.Assign(targets=[ast.Name(id=name, ctx=ast.Store())],
-                                  value=ast.List(elts=[], ctx=ast.Load()))
+                init = ast.Assign(
+                    targets=[ast.Name(id=name, ctx=ast.Store())],
+                    value=ast.Call(func=ast.Name(id='set', ctx=ast.Load()),
+                                   args=[], keywords=[]) if is_set else
+                    ast.List(elts=[], ctx=ast.Load()))
                 return [ast.copy_location(init, n), ast.copy_location(loop, n)]
             return n
 
@@ -270,6 +317,8 @@ def _transform(dst, how):
                 new = split_tuple_assignments(src)
             elif how == 'comp2loop':
                 new = comprehensions_to_loops(src)
+            elif how == 'joinassign':
+                new = join_assignments(src)
             elif how == 'shift':
                 # push every line down (line numbers change, nothing else)
                 new = '# moved\n' * 7 + src if not src.startswith('#!') else \
@@ -400,7 +449,7 @@ def run_for_property(prop, repo, seed=0, jobs=None):
     variants = [v for v in load_variants() if v['property'] == prop]
     # two whole-tree behaviour-preserving rewrites for every property
     for how in ('unparse', 'shift', 'rename', 'alias', 'kwcalls', 'swapif',
-                'splitassign', 'comp2loop'):
+                'splitassign', 'comp2loop', 'joinassign'):
         variants.append({'id': '%s-benign-%s-all' % (prop.lower(), how),
                          'property': prop, 'kind': 'benign', 'edits': [],
                          'transform': how, 'expect': None, 'clears': None,
